@@ -27,4 +27,15 @@ def layout_family(tier='quick'):
     out.append(T('l:percent_docs', 'MetaData M {\n    u16 Px `50% of %s`,\n    Px Alias `%d%%`,\n}\n\nroot packet Root {\n    u16 Len @lengthOf(Body) `100% of Body, max 50%d`,\n    @tag(1)\n    u8 k `key %x`,\n    Other Body `obj %v`,\n    Inner {\n        char[4] c `%c`,\n    },\n    repeat Other os `list %T`,\n    @lengthOf(os)\n    u32 Len2 `%5.2f`,\n    u32 cs @calculatedFrom("CRC32") `sum %08x`,\n}\n\npacket Other {\n    u8 v `%%`,\n}\n'))
     out.append(T('l:options_nosemi_comment', 'options {\n    LittleEndian = true // le\n    GoPackage = "m" // last, no semicolon\n}\n\nroot packet Root {\n    u8 a, // comment\n}\n'))
     out.append(T('l:oneline_constructs', 'options { LittleEndian = true; GoPackage = "m"; } // after options\nroot packet Root { u8 a, repeat Pair { u8 k, u8 v, }, // after inline\n    match a as b { 1 : Other, }, // after match\n} // after packet\npacket Other { } // keep alive\n'))
+    out.extend(round6_texts())
+    return out
+
+
+def round6_texts():
+    """texts added after the sixth seeding round (used by the formatter properties)"""
+    out = []
+    out.append(T('l:zero_keys', 'root packet Root {\n    u16 k,\n    match k as b {\n        007 : Other,\n        [0010, 000, 5] : Other,\n        00 : Third,\n    },\n}\n\npacket Other {\n    u8 v,\n}\n\npacket Third {\n    u8 w,\n}\n'))
+    out.append(T('l:comment_between_attr_and_field', "root packet Root {\n    @tag(1) // behind the tag attribute\n    u8 a,\n    @leftPad('0')\n    // between attribute and field\n    char[4] b,\n    @tag(2)\n    @rightPad(' ') // behind the second attribute\n    // and one more line\n    char[4] c,\n    @lengthOf(Body) // behind length attribute\n    u16 Len,\n    Other Body,\n    @calculatedFrom(\"CRC32\")\n    // above checksum field\n    u32 Check,\n}\n\npacket Other {\n    u8 v,\n}\n"))
+    out.append(T('l:only_comments_two', '// licence header\n// second line\n'))
+    out.append(T('l:comments_before_closing', 'MetaData M {\n    // inside meta, first\n    u8 m `d`,\n    // inside meta, last\n}\n\nroot packet Root {\n    u8 a,\n    // before closing brace\n}\n// after last definition, one\n// after last definition, two\n'))
     return out
